@@ -110,7 +110,7 @@ def h_insert(ctx, cls, ninsert, maxdepth):
 HARNESSES = dict(insert=h_insert)
 
 META = dict(
-    bounds=dict(insertions="1 (quick) or 2 (thorough) nodes", depth="host aggregate at depth <= 2 below the root",
+    bounds=dict(insertions="quick: 1 node at depth <= 1; thorough: 1 node at depth <= 2 for every class and 2 nodes at depth <= 1 for core classes (per-instance budget 6000 paths)",
                 tags="unknown tag: 2 symbolic characters over A-Z 0-9 . _ differing from every child name; vendor tags INTU.BID, X.Y, A.B.C",
                 kinds=KINDS),
     models=["instrumented from_etree/_convert/update_args/groom (+ MFINFO/STOCKINFO/MAIL overrides)", "copy.deepcopy of element trees (native)",
@@ -124,7 +124,14 @@ def instances(tier, seed):
     full = tier != "quick"
     for K in ofxgen.pick_classes(tier, seed):
         n = K.__name__
-        out.append(dict(name=f"insert[{n}]", harness="insert", fn=h_insert,
-                        params=dict(cls=n, ninsert=1 if not full else 2, maxdepth=1 if not full else 2),
-                        opts=dict(wall_s=120 if not full else 600, max_paths=3000 if not full else 20000)))
+        if not full:
+            out.append(dict(name=f"insert[{n}]", harness="insert", fn=h_insert, params=dict(cls=n, ninsert=1, maxdepth=1),
+                            opts=dict(wall_s=120, max_paths=3000)))
+        else:
+            # every class: one insertion down to depth 2; core classes additionally two insertions at depth <= 1
+            out.append(dict(name=f"insert[{n},1,depth2]", harness="insert", fn=h_insert, params=dict(cls=n, ninsert=1, maxdepth=2),
+                            opts=dict(wall_s=300, max_paths=6000)))
+            if ofxgen.is_core(K):
+                out.append(dict(name=f"insert[{n},2,depth1]", harness="insert", fn=h_insert, params=dict(cls=n, ninsert=2, maxdepth=1),
+                                opts=dict(wall_s=240, max_paths=6000)))
     return out
